@@ -15,3 +15,4 @@ import NutilsVerif.Props.C07
 import NutilsVerif.Props.C08
 import NutilsVerif.Props.C14
 import NutilsVerif.Props.C18
+import NutilsVerif.Props.C02
